@@ -72,8 +72,10 @@ func (o *OracleC02) OnOut(n *Node, st *Step, out *Out) {
 		}
 		if !cs.ok() {
 			class := "cert_short_or_invalid"
-			if cs.onlyEarlyInvalid() {
+			if cs.knownD1() {
 				class = "cert_counts_unverified_early_commit"
+			} else if cs.onlyEarlyInvalid() {
+				class = "cert_counts_unverified_early_commit_at_primary_or_antimev"
 			}
 			s.Violate("C02", class, fmt.Sprintf("%s accepted block %s at height %d view %d holding %d valid current-view commits (M=%d), %d invalid taken in before the header was known, %d invalid taken in later, %d of other views",
 				n, out.Hash, out.Hdr.Idx, n.d.ViewNumber, cs.Valid, cs.M, cs.InvalidEarly, cs.InvalidLate, cs.OtherView), n.id)
